@@ -126,6 +126,10 @@ def simulator_timestep_wiring(ctx, sim_kind, shape):
     ctx.eq("third_query_answers_for_the_current_viscosity_and_cfl", a3, pre * reference(u2, nu2, cfl2, "c"))
 
 
+# the three queries fork on every `min`/`max` of the limit computation; bound the exploration (unchanged tree: 6 paths)
+simulator_timestep_wiring.max_paths = 16
+
+
 @scenario
 def diffusion_maximum_principle(ctx, dim, shape, field_type):
     _, spne, _, _ = sopht_modules()
